@@ -9,6 +9,23 @@
 EXTENDS StrQuoteCore
 
 Tr == ndJsonDeserialize("texttrace.ndjson")
+\* words of the text format: identifiers (true, false, void, inf, nan, enumerants) and decimal numbers
+Digit(c) == c >= 48 /\ c <= 57
+Alpha(c) == (c >= 65 /\ c <= 90) \/ (c >= 97 /\ c <= 122) \/ c = 95
+IdentOK(w) == Len(w) > 0 /\ Alpha(w[1]) /\ \A i \in 1..Len(w) : Alpha(w[i]) \/ Digit(w[i])
+RECURSIVE Digits(_, _)
+Digits(w, i) == IF i <= Len(w) /\ Digit(w[i]) THEN Digits(w, i + 1) ELSE i       \* index after the run of digits starting at i
+NumberOK(w) ==
+  LET a == IF Len(w) > 0 /\ w[1] = 45 THEN 2 ELSE 1            \* optional '-'
+      b == Digits(w, a)                                        \* integer part
+      c == IF b <= Len(w) /\ w[b] = 46 THEN Digits(w, b + 1) ELSE b   \* optional fraction
+      fracOK == ~(b <= Len(w) /\ w[b] = 46) \/ c > b + 1
+      d == IF c <= Len(w) /\ w[c] \in {101, 69} THEN (IF c + 1 <= Len(w) /\ w[c + 1] \in {43, 45} THEN c + 2 ELSE c + 1) ELSE c
+      e == IF d > c THEN Digits(w, d) ELSE c
+      expOK == d = c \/ e > d
+  IN b > a /\ fracOK /\ expOK /\ e = Len(w) + 1
+WordOK(w) == IdentOK(w) \/ NumberOK(w) \/ w = <<45, 105, 110, 102>>        \* "-inf"
+
 VARIABLES l, first       \* first[vid] = text of the first rendering seen
 tvars == <<l, first>>
 TInit == l = 1 /\ first = <<>>
@@ -23,7 +40,11 @@ Step == /\ l <= Len(Tr) /\ l' = l + 1
              [] e.k = "field" ->
                   /\ first' = first
                   /\ IF e.kind = "string" THEN LET u == Unquote(e.tok) IN (u.ok /\ u.val = e.acc) \/ Bad("string field differs from the accessor")
-                     ELSE e.tok = e.acc \/ Bad("field value differs from the accessor")
+                     ELSE IF e.kind = "float" THEN      \* tokp = the value the token denotes by the grammar of the format, acc = the accessor's, both as bit patterns
+                          /\ (WordOK(e.tok) \/ Bad("field value is not a well-formed word of the text format"))
+                          /\ (e.tokp = e.acc \/ Bad("float field does not denote the accessor's value"))
+                     ELSE /\ (WordOK(e.tok) \/ Bad("field value is not a well-formed word of the text format"))
+                          /\ (e.tok = e.acc \/ Bad("field value differs from the accessor"))
              [] e.k = "render" ->
                   IF Lookup(first, e.vid) = <<0 - 1>> THEN first' = Append(first, <<e.vid, e.text>>)
                   ELSE first' = first /\ (Lookup(first, e.vid) = e.text \/ Bad("text depends on the encoder's history"))
